@@ -75,8 +75,7 @@ def c06_jobs(tier):
     js.append(job("ZZ_C06_Digits", U, n=19, shape=0))
     js.append(job("ZZ_C06_Digits", U, n=19, shape=2))
     if tier == "thorough":
-        js += [job("ZZ_C06_TotalTail", U, n=4, prefix=0), job("ZZ_C06_TotalTail", U, n=4, prefix=2)]
-        js += [job("ZZ_C06_Digits", U, n=19, shape=1), job("ZZ_C06_Digits", U, n=19, shape=3)]
+        pass  # (4-byte tails and the other 19-digit shapes did not finish in time; the 20-digit jobs below are the thorough extra)
         js.append(job("ZZ_C06_Digits", U, n=20, shape=0))
         js.append(job("ZZ_C06_Digits", U, n=20, shape=2))
     js.append(job("ZZ_C06_Digits", U, n=4, shape=4))
@@ -430,7 +429,7 @@ CHECKS = {
         "jobs": c06_jobs,
         "bounds": {
             "quick": "every byte string of length 0..5 as a whole file; 5 valid prefixes + every 3-byte tail; digit-run templates with 12 symbolic digits (duration, negative duration, should-total, hours+minutes, two entries) and 19 symbolic digits (hours, should-total); arbitrary int64 entry values in evaluation; the commands total, today, report (5 aggregations, --fill), tags, print (--with-totals, --sort), json with their warnings and --now on 1-2 records dated 0000-01-01, 0000-01-02, 9999-12-30, 9999-12-31, 2020-02-29, 2019-12-31 x 9 entry shapes (day-shifted ranges and open ranges, 24:00, 12:00am>) at three wall clocks",
-            "thorough": "as quick plus 4-byte tails behind two of the prefixes and digit runs of 19 and 20 symbolic digits in four shapes (whole files of 6-7 bytes and 5-byte tails did not finish within 25-40 minutes and are not registered)",
+            "thorough": "as quick plus digit runs of 20 symbolic digits (hours, should-total); whole files of 6-7 bytes, 4-5 byte tails and the other 19-digit shapes did not finish within 25-40 minutes and are not registered",
         },
         "outside": "longer arbitrary inputs than the bound (except through the templates); memory exhaustion; very long lines; encoding/json itself (model); decimal rendering of the huge numbers in the digit templates; wall clocks in year 0000 / 9999; --fill across thousands of years (slow, not a hang)",
         "stubs": [MODELS["regexp"], MODELS["fmt"], MODELS["utf8"], MODELS["bytealg"], MODELS["builder"], MODELS["json"], MODELS["sort"]],
